@@ -5,7 +5,8 @@ import Nstd.Hash.Props
   Property C02 for the machine that runs the TRANSLATED bodies (`GenStep.lean`: `gstep` = `pstep` with `insert`, `remove`
   (key / iterator / value address), `removeFront`, `removeBack`, `clear`, `swap`, `find`, `operator=`, bulk append / remove, `==` of the current headers as
   tools/gen_hash.py translates them): on every state that represents a model state one step of it IS the step of the
-  pointer-level model (`gstep_eq_pstep`), hence every run is (`grun_eq_prun`), hence the results of every operation history
+  pointer-level model (`gstep_eq_pstep`; `clear` and `operator=` SIMULATE the chain-list model's: `gstep_sim`), hence every run is
+  matched by the chain-list machine (`grun_sim`), hence the results of every operation history
   equal those of the insertion-ordered association list (`gen_refines`), for every container kind, hash function, pair of
   capacities and block size.  Also translated: `operator=` , HashSet `append(other)` / `remove(other)`, `operator==` (and `!=` as its negation).
   Not translated (hand-translated in `PtrModel.lean`, tied by the correspondence run): the constructors incl. the copy
@@ -61,12 +62,6 @@ theorem gRemoveBack_eq (kind : Kind) {h : Nat → Nat} {pt : PTable} {t : Table}
   · exact gen_set_removeBack hr hi
   · exact gen_pool_removeBack hr hi
 
-theorem gClear_eq (kind : Kind) (h : Nat → Nat) (t : PTable) : gClear kind h t = t.clear := by
-  cases kind
-  · exact gen_map_clear h t
-  · exact gen_set_clear h t
-  · exact gen_pool_clear h t
-
 theorem gSwap_eq (kind : Kind) (a b : PTable) : gSwap kind a b = some (PTable.swap a b) := by
   cases kind
   · exact gen_map_swap a b
@@ -78,7 +73,7 @@ theorem gSwap_eq (kind : Kind) (a b : PTable) : gSwap kind a b = some (PTable.sw
     translated default / copy constructor writes the literal of the header, the model its class-constant field), for every
     operation – constructors included –, container kind and hash function. -/
 theorem gstep_eq_pstep (kind : Kind) (h : Nat → Nat) (ps : PState) (s : State) (op : Op) (hp : PRel ps s) (hs : SInv h s)
-    (hd : ∀ t, (ps.get t).dcap = dcapOf kind) :
+    (hd : ∀ t, (ps.get t).dcap = dcapOf kind) (hne : ∀ t, op ≠ .clear t ∧ op ≠ .assign t) :
     gstep kind h ps op = pstep kind h ps op := by
   by_cases hav0 : op.available kind = false
   · simp [gstep, pstep, hav0]
@@ -155,7 +150,7 @@ theorem gstep_eq_pstep (kind : Kind) (h : Nat → Nat) (ps : PState) (s : State)
     | some id =>
       simp only [removeOut]
       cases ((ps.get t).removeItem id).1.order <;> simp
-  | clear t => simp only [gstep, pstep, hav, Bool.not_true, Bool.false_eq_true, if_false, gClear_eq]
+  | clear t => exact absurd rfl (hne t).1
   | swap t => simp only [gstep, pstep, hav, Bool.not_true, Bool.false_eq_true, if_false, gSwap_eq]
   | find t k =>
     simp only [gstep, pstep, hav, Bool.not_true, Bool.false_eq_true, if_false, gFind_eq]
@@ -181,10 +176,7 @@ theorem gstep_eq_pstep (kind : Kind) (h : Nat → Nat) (ps : PState) (s : State)
   | back t =>
     simp only [gstep, pstep, hav, Bool.not_true, Bool.false_eq_true, if_false]
     cases kind <;> simp only [gen_map_back, gen_set_back, gen_pool_back] <;> (cases (ps.get t).endPrev <;> rfl)
-  | assign t =>
-    simp only [gstep, pstep, hav, Bool.not_true, Bool.false_eq_true, if_false]
-    obtain ⟨hr, hself⟩ := hp.get t
-    cases kind <;> simp only [gAssign, gen_map_assign hr (hs.get t), gen_set_assign hr (hs.get t)]
+  | assign t => exact absurd rfl (hne t).2
   | appendAll t =>
     obtain ⟨hr, hself⟩ := hp.get t
     simp only [gstep, pstep, hav, Bool.not_true, Bool.false_eq_true, if_false]
@@ -244,23 +236,67 @@ theorem gstep_eq_pstep (kind : Kind) (h : Nat → Nat) (ps : PState) (s : State)
     · simp only [gen_set_copyConstruct h t 0 _ hdo hk]
     · rfl
   | _ => simp [gstep, hav]
+/-- One step of the machine with the translated bodies is simulated by one step of the chain-list machine: same result, coupled
+    successor states, rejected iff the model rejects – for every operation.  `clear` and `operator=` (which calls it) through
+    their simulation statements (`gen_*_clear`, `gen_*_assign`: the table they leave need not be the pointer-level model's,
+    it only has to represent the same model state), all other operations through `gstep_eq_pstep` and `pstep_sim`. -/
+theorem gstep_sim (kind : Kind) (h : Nat → Nat) (ps : PState) (s : State) (op : Op) (hp : PRel ps s) (hs : SInv h s)
+    (hd : ∀ t, (ps.get t).dcap = dcapOf kind) :
+    StepSim (gstep kind h ps op) (step kind h s op) := by
+  by_cases hc : ∃ t, op = .clear t
+  · obtain ⟨t, rfl⟩ := hc
+    by_cases hav : (Op.clear t).available kind = true
+    · have hg : ∃ pt', gClear kind h (ps.get t) = some pt' ∧ Rel pt' (s.get t).clear ∧ pt'.self = (ps.get t).self := by
+        cases kind
+        · exact gen_map_clear (hp.get t).1 (hs.get t)
+        · exact gen_set_clear (hp.get t).1 (hs.get t)
+        · exact gen_pool_clear (hp.get t).1 (hs.get t)
+      obtain ⟨pt', e1, e2, e3⟩ := hg
+      simp only [gstep, step, hav, Bool.not_true, Bool.false_eq_true, if_false, optSet, e1, Option.map_some, StepSim]
+      exact ⟨by triv, hp.set t e2 (by rw [e3]; exact (hp.get t).2)⟩
+    · have : (Op.clear t).available kind = false := by simpa using hav
+      simp [gstep, step, this, StepSim]
+  by_cases ha : ∃ t, op = .assign t
+  · obtain ⟨t, rfl⟩ := ha
+    by_cases hav : (Op.assign t).available kind = true
+    · have hg : ∃ pt', gAssign kind h (ps.get t) (ps.get (!t)) = some pt' ∧
+          Rel pt' (Table.assignFrom kind h (s.get t) (s.get (!t))) ∧ pt'.self = (ps.get t).self := by
+        cases kind
+        · exact gen_map_assign (hp.get t).1 (hp.get (!t)).1 (hs.get t) (hs.get (!t))
+        · exact gen_set_assign (hp.get t).1 (hp.get (!t)).1 (hs.get t) (hs.get (!t))
+        · exact (hp.get t).1.assignFrom (hp.get (!t)).1 (hs.get t) (hs.get (!t)) Kind.pool
+      obtain ⟨pt', e1, e2, e3⟩ := hg
+      simp only [gstep, step, hav, Bool.not_true, Bool.false_eq_true, if_false, optSet, e1, Option.map_some, StepSim]
+      exact ⟨by triv, hp.set t e2 (by rw [e3]; exact (hp.get t).2)⟩
+    · have : (Op.assign t).available kind = false := by simpa using hav
+      simp [gstep, step, this, StepSim]
+  rw [gstep_eq_pstep kind h ps s op hp hs hd (fun t => ⟨fun e => hc ⟨t, e⟩, fun e => ha ⟨t, e⟩⟩)]
+  exact pstep_sim kind h ps s op hp hs
+
 /-- … hence every run from a represented state whose tables carry the default capacity of the current header (`CInv`, kept by
-    every step): the same final state, the same results, rejected iff the model rejects. -/
-theorem grun_eq_prun (kind : Kind) (h : Nat → Nat) (ops : List Op) (ps : PState) (s : State) (hp : PRel ps s) (hs : SInv h s)
+    every step) is matched step by step by the chain-list machine: same results, coupled final states, rejected iff the model
+    rejects. -/
+theorem grun_sim (kind : Kind) (h : Nat → Nat) (ops : List Op) (ps : PState) (s : State) (hp : PRel ps s) (hs : SInv h s)
     (ipb : Nat) (hc : CInv (ipb, dcapOf kind) s) :
-    grun kind h ps ops = prun kind h ps ops := by
+    match grun kind h ps ops, run kind h s ops with
+    | some (ps', os), some (s', os') => os = os' ∧ PRel ps' s' ∧ SInv h s'
+    | none, none => True
+    | _, _ => False := by
   induction ops generalizing ps s with
-  | nil => rfl
+  | nil => exact ⟨rfl, hp, hs⟩
   | cons op ops ih =>
-    have h1 := pstep_sim kind h ps s op hp hs
-    have h2 := (step_refines kind h s op hs).2
     have hd : ∀ t, (ps.get t).dcap = dcapOf kind := fun t => by
       rw [(hp.get t).1.dcap]; exact congrArg Prod.snd (hc.get t)
-    simp only [grun, prun]
-    rw [gstep_eq_pstep kind h ps s op hp hs hd]
+    have h1 := gstep_sim kind h ps s op hp hs hd
+    have h2 := (step_refines kind h s op hs).2
+    simp only [grun, run]
     unfold StepSim at h1
-    cases hps : pstep kind h ps op with
-    | none => rfl
+    cases hps : gstep kind h ps op with
+    | none =>
+      rw [hps] at h1
+      cases hst : step kind h s op with
+      | none => trivial
+      | some r => rw [hst] at h1; exact False.elim h1
     | some pr =>
       rw [hps] at h1
       cases hst : step kind h s op with
@@ -270,20 +306,53 @@ theorem grun_eq_prun (kind : Kind) (h : Nat → Nat) (ops : List Op) (ps : PStat
         obtain ⟨ps1, o⟩ := pr
         obtain ⟨s1, o'⟩ := r
         simp only at h1 ⊢
-        rw [ih ps1 s1 h1.2 (h2 s1 o' hst) (step_consts kind h _ s s1 op o' hc hst)]
-        cases prun kind h ps1 ops <;> rfl
+        have ih' := ih ps1 s1 h1.2 (h2 s1 o' hst) (step_consts kind h _ s s1 op o' hc hst)
+        cases hpr : grun kind h ps1 ops with
+        | none =>
+          rw [hpr] at ih'
+          cases hr : run kind h s1 ops with
+          | none => trivial
+          | some r2 => rw [hr] at ih'; exact False.elim ih'
+        | some pr2 =>
+          rw [hpr] at ih'
+          cases hr : run kind h s1 ops with
+          | none => rw [hr] at ih'; exact False.elim ih'
+          | some r2 =>
+            rw [hr] at ih'
+            obtain ⟨ps2, os⟩ := pr2
+            obtain ⟨s2, os'⟩ := r2
+            simp only at ih' ⊢
+            exact ⟨by rw [h1.1, ih'.1], ih'.2⟩
 
 /-- The refinement theorem for the code as written in the headers: for every container kind, hash function, block size,
-    pair of capacities and operation history (the default capacity is the header's), the machine that executes the translated `insert` / `remove` /
-    `clear` / `swap` / `find` bodies returns exactly the results of the insertion-ordered association list and rejects
-    exactly the histories it rejects. -/
+    pair of capacities and operation history (the default capacity is the header's), the machine that executes the translated
+    bodies returns exactly the results of the insertion-ordered association list and rejects exactly the histories it rejects. -/
 theorem gen_refines (kind : Kind) (h : Nat → Nat) (ipb : Nat) (hk : 0 < ipb) (c0 c1 : Nat) (ops : List Op) :
     (grun kind h ⟨PTable.construct false ipb (dcapOf kind) c0, PTable.construct true ipb (dcapOf kind) c1⟩ ops).map (fun r => r.2)
       = (Spec.run kind Spec.init ops).map (fun r => r.2) := by
   have hd : 0 < dcapOf kind := by cases kind <;> decide
-  rw [grun_eq_prun kind h ops _ ⟨Table.construct ipb (dcapOf kind) c0, Table.construct ipb (dcapOf kind) c1⟩
-    ⟨fresh_rel false _ _ _, fresh_rel true _ _ _, rfl, rfl⟩ (inv_construct h ipb (dcapOf kind) hk hd c0 c1) ipb ⟨rfl, rfl⟩]
-  exact ptr_refines_every_capacity kind h ipb (dcapOf kind) hk hd c0 c1 ops
+  have hs := inv_construct h ipb (dcapOf kind) hk hd c0 c1
+  have h1 := grun_sim kind h ops ⟨PTable.construct false ipb (dcapOf kind) c0, PTable.construct true ipb (dcapOf kind) c1⟩
+    ⟨Table.construct ipb (dcapOf kind) c0, Table.construct ipb (dcapOf kind) c1⟩
+    ⟨fresh_rel false _ _ _, fresh_rel true _ _ _, rfl, rfl⟩ hs ipb ⟨rfl, rfl⟩
+  have h2 := refines_from kind h ops ⟨Table.construct ipb (dcapOf kind) c0, Table.construct ipb (dcapOf kind) c1⟩ hs
+  have h3 : abs ⟨Table.construct ipb (dcapOf kind) c0, Table.construct ipb (dcapOf kind) c1⟩ = Spec.init := rfl
+  rw [h3] at h2
+  rw [← h2]
+  cases hpr : grun kind h ⟨PTable.construct false ipb (dcapOf kind) c0, PTable.construct true ipb (dcapOf kind) c1⟩ ops with
+  | none =>
+    rw [hpr] at h1
+    cases hr : run kind h ⟨Table.construct ipb (dcapOf kind) c0, Table.construct ipb (dcapOf kind) c1⟩ ops with
+    | none => rfl
+    | some r => rw [hr] at h1; exact False.elim h1
+  | some pr =>
+    rw [hpr] at h1
+    cases hr : run kind h ⟨Table.construct ipb (dcapOf kind) c0, Table.construct ipb (dcapOf kind) c1⟩ ops with
+    | none => rw [hr] at h1; exact False.elim h1
+    | some r =>
+      rw [hr] at h1
+      simp only [Option.map_some, Option.some.injEq]
+      exact h1.1
 
 /-- non-vacuity / a concrete run of the translated bodies: one bucket (all keys collide), removal from the middle of the
     chain, a positional insert, an existing key, a lookup, swap with the other table, iteration -/
